@@ -358,7 +358,11 @@ func (v *simView) Gen(rng *Rng, i int) string {
 			g.emit(fmt.Sprintf("x %d", rng.Intn(nc)))
 		case x < 97:
 			if cfg.timeout {
-				g.emit("E")
+				if rng.Bool() {
+					g.emit("E")
+				} else {
+					g.emit(fmt.Sprintf("E %d", 1+rng.Intn(3))) // only the earliest deadlines have passed
+				}
 			}
 		case x < 98:
 			// (only in topologies without other reasons to reject a request: with an unowned range AND a removed
